@@ -11,7 +11,7 @@ CONSTANT CoverKinds      \* operation names to cover ({} = all)
 VARIABLE h
 
 CInit == Init /\ h = <<>>
-CoverOps == {o \in Ops : (CoverKinds = {} \/ o.op \in CoverKinds)
+CoverOps == {o \in (IF CoverKinds = {} THEN Ops ELSE Ops \cup WireOpSet) : (CoverKinds = {} \/ o.op \in CoverKinds)
                           /\ (o.op = "PushBlob" => o.dd = o.c)
                           /\ (o.op = "GetBlobRange" => <<o.o0, o.o1>> \in {<<0, 1>>, <<1, 2>>, <<1, -1>>, <<2, 1>>, <<1, 1>>, <<2, 3>>})
                           /\ (o.op \in {"ListTags", "ListRepos"} => o.startpos \in {0, 2, 3})}
